@@ -497,6 +497,8 @@ class Run(object):
             return FuncV("builtins." + n)
         if self.spec_mode and (n in self.engine.spec_funcs or n in self.engine.homs):
             return FuncV("spec." + n)
+        if self.spec_mode and n in self.engine.spec_imports:
+            return ModuleV(self.engine.spec_imports[n])
         if n in ("IndexError", "KeyError", "TypeError", "AttributeError", "PermissionError", "FileNotFoundError", "OSError", "Exception"):
             return ClassV("builtins." + n)
         raise Unsupported("unbound name %s (line %s)" % (n, getattr(node, "lineno", "?")))
@@ -1522,7 +1524,7 @@ class Run(object):
         post_env = dict(env)
         import re as _re
 
-        ens = contract.get("ensures", [])
+        ens = list(contract.get("ensures", [])) + list(contract.get("defines", []))
         names = set(_re.findall(r"\b_n\d+\b", " ".join(ens)))
         heads = set(_re.findall(r"lasthead\((\d+)", " ".join(ens)))
         saved_g = {n: st.ghost.get(n) for n in names}
@@ -1761,6 +1763,10 @@ class Run(object):
                 n = Len(val)
                 self.check(st, And(Le(Neg(n), idx), Lt(idx, n)), "IndexError", node)
                 ii = norm_index(val, idx)
+                if ii.op not in ("#int", "#const"):
+                    c = self.fresh("idx", INT)
+                    st.assume(Eq(c, ii))
+                    ii = c
                 self.mutate(st, base, Concat(Extract(val, I(0), ii), Unit(self.raw(st, v)), Extract(val, Add(ii, I(1)), Sub(n, Add(ii, I(1))))))
                 return
             if isinstance(base, ListV) and isinstance(target.slice, ast.Slice):
